@@ -24,6 +24,10 @@ type Replay struct {
 	Detail   map[string]string `json:"detail,omitempty"`
 	Runs     []Run             `json:"runs"`
 	Observed []string          `json:"observed,omitempty"` // digests seen when the witness was recorded
+	// Repeat > 1: the witness shows behaviour that depends on something no seam controls (heap addresses,
+	// i.e. the iteration order of pointer-keyed maps); replaying means running it up to Repeat times and
+	// observing the clause at least once.
+	Repeat int `json:"repeat,omitempty"`
 }
 
 // Verdict of re-evaluating a clause over the results of a replay's runs.
@@ -42,6 +46,22 @@ type checker interface {
 var checkers = map[string]checker{}
 
 func runReplay(r *Replay) ([]*Result, Verdict) {
+	n := r.Repeat
+	if n < 1 {
+		n = 1
+	}
+	var res []*Result
+	var v Verdict
+	for k := 0; k < n; k++ {
+		res, v = runReplayOnce(r)
+		if v.Infra != "" || v.Violated {
+			break
+		}
+	}
+	return res, v
+}
+
+func runReplayOnce(r *Replay) ([]*Result, Verdict) {
 	res := make([]*Result, len(r.Runs))
 	parallel(len(r.Runs), workers, func(i int) { res[i] = execute(&r.Runs[i]) })
 	for i, x := range res {
